@@ -478,7 +478,7 @@ class C12Prop(DecodeProp):
                 differs = (runner.validity_pattern(core.parse_kv(g)) != runner.validity_pattern(core.parse_kv(m))
                            or g.split(" ")[0] != m.split(" ")[0])
             else:
-                differs = g != m
+                differs = core.strip_names(g) != core.strip_names(m)
             if differs:
                 nm += 1
                 if len(out.mismatch_examples) < 10:
